@@ -271,6 +271,23 @@ def check_one(layer, c, tmp, acc):
         if d:
             acc.violation('C13', f'csv/handwritten-{d[0]}/{cls()}/{"bom" if bom else "nobom"}-{"lf" if eol == chr(10) else "crlf"}-{"allquoted" if qa else "minimal"}',
                           'hand-written file: ' + d[1], case)
+    # write again after an edit: the second file is the edited WBS (nothing remembered from the first write)
+    if layer in ('structure', 'dates'):
+        try:
+            ts = list(w.tasks)
+            ts[-1].name = 'renamed;"x"'
+            ts[0].estimate = 7.25
+            write_csv(w, f2)
+            r3 = meaning_of_wbs(read_csv(f2))
+            exp2 = [dict(e) for e in exp]
+            exp2[-1]['name'] = 'renamed;"x"'
+            exp2[0]['estimate'] = 7.25
+            acc.count('rewrite_after_edit')
+            d = diff(exp2, r3)
+            if d:
+                acc.violation('C13', f'csv/stale-after-edit-{d[0]}/{cls()}', 'second write_csv after an edit: ' + d[1], case)
+        except Exception as ex:  # noqa
+            acc.violation('C13', f'csv/rewrite-raised-{type(ex).__name__}/{cls()}', f'second write raised {ex}', case)
     nontrivial = layer != 'structure' or any(p is not None for p in c.par) or c.links
     if nontrivial:
         acc.count('nontrivial')
